@@ -20,7 +20,7 @@ from simlib.driver import blank_result, violation
 PROP = "C12"
 LEVEL = "fault_enumeration"
 ENGINE = "lockstep"
-CASE_WALL = 120
+CASE_WALL = 240
 JOBS = 2  # every case forks a replacement for the killed process; forks do not scale in this sandbox
 FRESH_SELFTEST = True
 RULE = (
